@@ -922,6 +922,70 @@ def mdcpdp_one_metric(ctx: Ctx):
            construct="MDCPDPEnv:leg-metric")
 
 
+def mdcpdp_metric_forms(ctx: Ctx):
+    """C03.h (second clause) each branch of MDCPDPEnv.get_distance is the norm it is named after, taken over the coordinate axis
+    of the DIFFERENCE of the two points: L1 = sum_k |a_k - b_k| (`.norm(p=1, dim=-1)` or `.abs().sum(-1)`), L2 = the 2-norm.
+    `|sum_k (a_k - b_k)|` (sum first, absolute value afterwards) lets opposite-signed coordinate differences cancel."""
+    cls = ctx.repo.get_class("rl4co/envs/routing/mdcpdp/env.py", "MDCPDPEnv")
+    fi = cls.methods.get("get_distance")
+    if fi is None:
+        raise AnalysisError("MDCPDPEnv.get_distance not found")
+    ctx.fn(fi)
+    it = vg.Interp(ctx.repo, cls, inline_policy=lambda f, a: False)
+    fr = it.run_function(fi)
+    ps = fi.params()
+    pts = [p_ for p_ in ps if p_ != "self"]
+    if len(pts) != 2:
+        raise AnalysisError(f"MDCPDPEnv.get_distance: expected two points, found {pts}")
+    A, B = (nf.poly(vg.mk("param", p_)) for p_ in pts)
+
+    def is_diff(x):
+        x = nf.strip(x)
+        while (x.op == "meth" and x.args[1] == "abs") or nf._fn(x) == "torch.abs":
+            x = nf.strip(x.args[0] if x.op == "meth" else x.args[1])
+        px = nf.poly(x)
+        return px == A - B or px == B - A
+
+    def absd(x):
+        x = nf.strip(x)
+        if (x.op == "meth" and x.args[1] == "abs") or nf._fn(x) == "torch.abs":
+            return is_diff(x)
+        return False
+
+    def form(v):
+        v = nf.strip(v)
+        if (v.op == "meth" and v.args[1] == "norm") or nf._fn(v) in ("torch.norm", "torch.linalg.norm", "torch.linalg.vector_norm"):
+            base = v.args[0] if v.op == "meth" else v.args[1]
+            rest = v.args[2:]
+            pk = [k_.args[1] for k_ in rest if isinstance(k_, vg.S) and k_.op == "kw" and k_.args[0] in ("p", "ord")]
+            pv = pk[0] if pk else next((x for x in rest if isinstance(x, vg.S) and x.op == "const"), None)
+            pnum = pv.args[0] if isinstance(pv, vg.S) and pv.op == "const" else 2
+            if is_diff(base) and nf.axis_is(v, -1):
+                return pnum
+            return None
+        if (v.op == "meth" and v.args[1] == "sum") or nf._fn(v) == "torch.sum":
+            base = v.args[0] if v.op == "meth" else v.args[1]
+            if absd(base) and nf.axis_is(v, -1):
+                return 1
+        return None
+    seen = {}
+    for cond, v in fr.returns:
+        if not isinstance(v, vg.S):
+            continue
+        txt = vg.show(cond, 4) if cond is not None else ""
+        mode = "L1" if "'L1'" in txt and "'L2'" not in txt else ("L2" if "'L2'" in txt else None)
+        if mode is None:
+            continue
+        seen[mode] = form(v)
+    for mode, want in (("L1", 1), ("L2", 2)):
+        if mode not in seen:
+            raise AnalysisError(f"MDCPDPEnv.get_distance: branch for dist_mode == {mode!r} not found")
+        ok = seen[mode] == want
+        ctx.ob("C03.h", f"MDCPDPEnv.get_distance[{mode}]:norm-of-the-difference", ok, fi.loc,
+               f"the {mode} branch is the {want}-norm of (a - b) over the coordinate axis: {ok}" + ("" if ok else " -- e.g. the absolute value taken after the sum lets coordinate differences of opposite sign cancel"),
+               construct=f"MDCPDPEnv.get_distance:{mode}:form")
+
+
 def flp_min_axis(ctx: Ctx):
     """C03.e FLP: `min over the chosen facilities` is a reduction over axis 1 of a [B, k, n] tensor.  gather_by_index drops the
     gathered axis when exactly one index is gathered (k = 1), so the operand's rank must be fixed explicitly (view / reshape to
@@ -1057,6 +1121,7 @@ def run(ctx: Ctx):
     incremental(ctx)
     flp_min_axis(ctx)
     mdcpdp_one_metric(ctx)
+    mdcpdp_metric_forms(ctx)
     mcp_covered_indicator(ctx)
     svrp_technician_counter(ctx)
     exact_distances(ctx, "C03.i", [(T.ALL_ENVS[c], f"{c}._get_reward") for c in TR.REWARD])
